@@ -411,6 +411,10 @@ class ModuleVistor(NodeVisitor):
                 if isinstance(ob, model.Module) and not isinstance(current, model.Package):
                     # Only a package can contain modules.
                     return False
+                if isinstance(ob.parent, model.Class):
+                    # A member of a class (reached through an alias like 'meth = C.meth')
+                    # stays a member of its class.
+                    return False
                 if origin_module.all is None or origin_name not in origin_module.all:
                     self.system.msg(
                         "astbuilder",
